@@ -77,6 +77,7 @@ Definition irrelevant (e : ev) : bool :=
   match e with
   | EvAcc _ _ _ => true
   | EvCli n _ => String.eqb n "ub_null" || String.eqb n "ub_oob" || String.eqb n "stopped"
+                 || String.eqb n "g_inc" || String.eqb n "g_dec" || String.eqb n "g_emp"
   end.
 
 Lemma invoked_app tr tr' : invoked (tr ++ tr') = invoked tr ++ invoked tr'.
